@@ -6,7 +6,9 @@ import ZV.Model.C06
           spkifp=… tbsfp=… spkisub=… noct=<hex | -> eq=<0|1> ss=<0|1|u>`
     `noct` is printed only for canonically encoded certificates (flag supplied by the harness: re-marshalling the
     parsed TBS reproduces RawTBSCertificate); `verified` is the outcome of verifying the certificate's signature
-    under its own key (u = the harness has no independent verifier for that algorithm). -/
+    under its own key (u = the harness has no independent verifier for that algorithm).
+      `c06 wrap <prefix-hex|-> <der-hex> <suffix-hex|-> <class>`
+    output `err` or `ok raw=<length of Raw> md5=… sha1=… sha256=…` for the input prefix ‖ der ‖ suffix. -/
 namespace ZV.C06
 open ZV ZV.Der
 
@@ -33,6 +35,18 @@ def handle (args : List String) : String :=
           ++ " eq=" ++ (if m.issuerEqSubject then "1" else "0") ++ " ss=" ++ ss
       | .err => "err"
       | .panic => "panic"
+  | ["wrap", pre, der, suf, _class] =>
+    -- input = prefix ‖ DER ‖ suffix fed to `ParseCertificate` as one byte string
+    match ofHex pre, ofHex der, ofHex suf with
+    | some p, some d, some s =>
+      match parseCert (p ++ d ++ s) with
+      | .ok c =>
+        let m := c.meta
+        "ok raw=" ++ toString c.raw.full.length
+          ++ " md5=" ++ toHex m.fpMD5 ++ " sha1=" ++ toHex m.fpSHA1 ++ " sha256=" ++ toHex m.fpSHA256
+      | .err => "err"
+      | .panic => "panic"
+    | _, _, _ => "bad-hex"
   | _ => "bad-op"
 
 end ZV.C06
